@@ -11,7 +11,7 @@ sound for every number of iterations; equal facts merge; worklist to fixpoint, n
 The rule supplies  transfer(inst, auto_state, ctx) -> auto_state | iterable of auto_states | None
 (None = path ends, e.g. noreturn call) and receives exit states at `ret` instructions.
 """
-from .facts import cond_atoms, negate, _k
+from .facts import cond_atoms, negate, _k, strip_bitcasts
 from .ir import const_int
 
 
@@ -314,13 +314,13 @@ def _cross(fn, src, dst, term, s, track):
             elif dst.name == term.x['default'] and not mine:
                 atoms = [('ne', _k(v), '#%d' % c) for c, _ in cases]
     for at in atoms:
-        op, a, b = at
-        a, b = s.lookup(a), s.lookup(b)
+        op, a0, b0 = at
+        a, b = s.lookup(a0), s.lookup(b0)
         at = (op, a, b)
         k = PathState(None, s.env, frozenset(known)).knows(at)
         if k is False:
             return None
-        if k is None and (track(a) or track(b)):
+        if k is None and (track(a) or track(b) or track(a0) or track(b0)):
             known.add(at)
     # bind phis of dst (parallel assignment: incoming values are read in the old state)
     env = dict(s.env)
@@ -338,7 +338,7 @@ def _cross(fn, src, dst, term, s, track):
                 continue
             for v, bb in zip(ins.o, ins.x['bb']):
                 if bb == src.name:
-                    val = s.lookup(_k(v))
+                    val = s.lookup(_k(strip_bitcasts(fn, v)))   # facts are recorded about un-cast values
                     if val not in refs:          # an unbound phi of the same block: ambiguous instance
                         newb[ins.ref] = val
         # knowledge about the previous instance of a re-defined phi goes away
